@@ -1,8 +1,1944 @@
-//! C13 — not built yet.
+//! C13 — parameter validation is sound; the modulus chain is well-formed and reproducible.
+//!
+//! Sections (all exhaustive enumerations on the real code; cheap ones first):
+//!  * `defaults`        `max_bit_count`, `bfv_default` for every (degree, level)
+//!  * `create`          `CoeffModulus::create(N, sizes)` for every N = 2..2^15 and every multiset of sizes (+ `PlainModulus::batching`)
+//!  * `create_plain`    the deprecated `CoeffModulus::create_with_plain_modulus(N, t, sizes)` (primes = 1 mod lcm(2N, t))
+//!  * `is_prime`        `Modulus::new(n).is_prime()` against a sieve for all n below the bound + boundary windows + pseudoprimes
+//!  * `nt_draws`        every first draw of `try_minimal_primitive_root` / every constant draw of `is_prime` for small moduli
+//!  * `validate_small`  scheme x degree x coefficient lists over V (x plain modulus x security x expand x special inside a case)
+//!  * `validate_std`    standard degrees 1024..32768 with `bfv_default` lists (as is / one bit too large / neighbouring degree)
+//!  * `validate_long`   lists of 63 / 64 / 65 distinct primes
+//!  * `ids`             pairwise distinct parameter identifiers over the whole universe (custom section: sort + adjacent scan)
+//!
+//! Oracle of the validate sections: `ref_validate` (the statement's preconditions in ladder order, BigU / u128 arithmetic only),
+//! `ref_chain` (which prefixes form the chain), `check_level` (constants against their definitions), `observe_ctx` (list structure,
+//! ids of every level against an independently built parameter object). Every accepted object is built twice from independent
+//! builder objects under different scripted number-theory draws (hook H3) and the two observations must agree.
+
 use crate::engine::*;
+use crate::refmodel::bigu::*;
+use heathcliff::util as hu;
+use heathcliff::verif_hooks::{nt_draw_log, set_nt_draws};
+use heathcliff::{CoeffModulus, ContextData, EncryptionParameters, HeContext, Modulus, ParmsID, PlainModulus, SchemeType, SecurityLevel};
+use serde::{Deserialize, Serialize};
+use serde_json::{json, Value};
+use std::cell::RefCell;
+use std::collections::HashMap;
+use std::sync::atomic::{AtomicU64, Ordering};
+use std::sync::Arc;
+use std::time::{Duration, Instant};
 
-pub fn describe(_rep: &Report) {}
+pub fn describe(rep: &Report) {
+    rep.set_rule(
+        "validate_*: case = (scheme, degree, explicit coefficient list) and loops over ALL (plain modulus, security level, expand flag, \
+         special-prime flag) of its alphabets; every constructible object is given to HeContext::new twice (independent builder \
+         objects, different scripted number-theory draws) and compared with an independent predicate / BigU definitions. \
+         non-trivial = at least one inner item was accepted (chain, constants, ids compared). ids: every (scheme, degree, list, plain \
+         modulus) of the universe through the builder, sort by id, adjacent scan. create: case = (N, multiset of bit sizes). \
+         is_prime: case = block of consecutive integers. nt_draws: case = one small modulus, loops over ALL draw values.",
+    );
+    rep.assume("security table re-typed from the HomomorphicEncryption.org standard (ternary secret, classical): 128: 27/54/109/218/438/881, 192: 19/37/75/152/305/611, 256: 14/29/58/118/237/476 for N = 1024..32768; other degrees have no standard entry (limit 0)");
+    rep.assume("reference primality: deterministic Miller-Rabin with 12 bases (valid below 2^64) and a sieve of Eratosthenes below the is_prime bound");
+    rep.assume("number-theory draws are scripted pseudo-random streams (hook H3); Miller-Rabin's error on composites under ADVERSARIAL draws is enumerated in nt_draws and only the sound direction (a witness among the bases => rejected; prime => accepted) is judged");
+    rep.assume("composite coefficient / batching moduli that admit a 2N-th root (17*97 in V): acceptance and the root found depend on the draws; only 'set => preconditions', structure and arithmetic constants are judged there, determinism clauses are not (DESIGN scope decision); counts are reported as observations");
+    rep.assume("ContextData::upper_half_increment has no public accessor and is not compared; root-power tables are C09's subject (only root, inv_degree, size are compared here)");
+}
 
-pub fn sections(_cfg: &RunCfg) -> Vec<Box<dyn AnySection>> {
-    vec![]
+// ---------------------------------------------------------------------------------------------
+// small helpers
+// ---------------------------------------------------------------------------------------------
+
+fn splitmix(state: &mut u64) -> u64 {
+    *state = state.wrapping_add(0x9E37_79B9_7F4A_7C15);
+    let mut z = *state;
+    z = (z ^ (z >> 30)).wrapping_mul(0xBF58_476D_1CE4_E5B9);
+    z = (z ^ (z >> 27)).wrapping_mul(0x94D0_49BB_1331_11EB);
+    z ^ (z >> 31)
+}
+
+fn stream(seed: u64, tag: u64, ctr: u64, len: usize) -> Vec<u64> {
+    let mut s = h64(&(seed, tag, ctr));
+    (0..len).map(|_| splitmix(&mut s)).collect()
+}
+
+fn bits(v: u64) -> usize {
+    64 - v.leading_zeros() as usize
+}
+
+fn gcd(mut a: u64, mut b: u64) -> u64 {
+    while b != 0 {
+        (a, b) = (b, a % b);
+    }
+    a
+}
+
+thread_local! {
+    static MODS: RefCell<HashMap<u64, Result<Modulus, String>>> = RefCell::new(HashMap::new());
+    static ROOTS: RefCell<HashMap<(usize, u64), Option<u64>>> = RefCell::new(HashMap::new());
+    static HASROOT: RefCell<HashMap<(usize, u64), Option<bool>>> = RefCell::new(HashMap::new());
+    static AVAIL: RefCell<HashMap<(usize, usize, usize), Vec<u64>>> = RefCell::new(HashMap::new());
+    static ISP: RefCell<HashMap<u64, bool>> = RefCell::new(HashMap::new());
+    /// set when `modulus()` had to replace the installed draw script
+    static CLOBBER: std::cell::Cell<bool> = const { std::cell::Cell::new(false) };
+}
+
+/// memoized deterministic Miller-Rabin (the reference asks the same few moduli again and again)
+fn isp(v: u64) -> bool {
+    if v < 1 << 16 {
+        return is_prime_u64(v);
+    }
+    if let Some(r) = ISP.with(|m| m.borrow().get(&v).cloned()) {
+        return r;
+    }
+    let r = is_prime_u64(v);
+    ISP.with(|m| m.borrow_mut().insert(v, r));
+    r
+}
+
+/// `Modulus::new(v)` through a per-thread cache (the constructor runs 40 Miller-Rabin rounds); built under its own
+/// scripted draws. Err = the builder's refusal.
+fn modulus(v: u64) -> Result<Modulus, String> {
+    if let Some(r) = MODS.with(|m| m.borrow().get(&v).cloned()) {
+        return r;
+    }
+    set_nt_draws(Some(stream(0xC13, v, 0, 64)));
+    let r = guard(|| Modulus::new(v));
+    set_nt_draws(None);
+    CLOBBER.with(|c| c.set(true));
+    MODS.with(|m| m.borrow_mut().insert(v, r.clone()));
+    r
+}
+
+/// minimal primitive 2n-th root of unity modulo the PRIME q (None if 2n does not divide q-1)
+fn ref_min_root(n: usize, q: u64) -> Option<u64> {
+    if let Some(r) = ROOTS.with(|m| m.borrow().get(&(n, q)).cloned()) {
+        return r;
+    }
+    let two_n = 2 * n as u64;
+    let r = if q < 3 || (q - 1) % two_n != 0 {
+        None
+    } else if q < (1 << 20) {
+        (1..q).find(|&x| pow_mod(x, n as u64, q) == q - 1)
+    } else {
+        let e = (q - 1) / two_n;
+        let mut found = None;
+        for x in 2..4096u64 {
+            let g = pow_mod(x, e, q);
+            if pow_mod(g, n as u64, q) == q - 1 {
+                let g2 = mul_mod(g, g, q);
+                let (mut cur, mut best) = (g, g);
+                for _ in 0..n {
+                    if cur < best {
+                        best = cur;
+                    }
+                    cur = mul_mod(cur, g2, q);
+                }
+                found = Some(best);
+                break;
+            }
+        }
+        found
+    };
+    ROOTS.with(|m| m.borrow_mut().insert((n, q), r));
+    r
+}
+
+/// does some x with x^n = -1 (mod q) exist?  Some(answer), or None when q is a large composite (not decided)
+fn ref_has_root(n: usize, q: u64) -> Option<bool> {
+    if q < 3 || n == 0 || (q - 1) % (2 * n as u64) != 0 {
+        return Some(false);
+    }
+    if isp(q) {
+        return Some(true);
+    }
+    if let Some(r) = HASROOT.with(|m| m.borrow().get(&(n, q)).cloned()) {
+        return r;
+    }
+    let r = if q < (1 << 22) { Some((1..q).any(|x| pow_mod(x, n as u64, q) == q - 1)) } else { None };
+    HASROOT.with(|m| m.borrow_mut().insert((n, q), r));
+    r
+}
+
+/// HomomorphicEncryption.org standard, ternary secret, classical security: largest total bit count
+fn std_max_bits(n: usize, sec: u16) -> usize {
+    let col = match n {
+        1024 => 0,
+        2048 => 1,
+        4096 => 2,
+        8192 => 3,
+        16384 => 4,
+        32768 => 5,
+        _ => return 0,
+    };
+    match sec {
+        128 => [27, 54, 109, 218, 438, 881][col],
+        192 => [19, 37, 75, 152, 305, 611][col],
+        256 => [14, 29, 58, 118, 237, 476][col],
+        _ => usize::MAX,
+    }
+}
+
+fn sec_level(sec: u16) -> SecurityLevel {
+    match sec {
+        128 => SecurityLevel::Tc128,
+        192 => SecurityLevel::Tc192,
+        256 => SecurityLevel::Tc256,
+        _ => SecurityLevel::None,
+    }
+}
+
+// ---------------------------------------------------------------------------------------------
+// the parameter tuple and the reference predicate
+// ---------------------------------------------------------------------------------------------
+
+#[derive(Serialize, Deserialize, Clone, Debug, PartialEq, Eq, Hash)]
+pub struct P {
+    /// 0 None, 1 BFV, 2 CKKS, 3 BGV
+    pub scheme: u8,
+    pub n: usize,
+    pub q: Vec<u64>,
+    pub t: u64,
+}
+
+impl P {
+    fn label(&self) -> String {
+        format!("scheme={} N={} q={:?} t={}", ["None", "BFV", "CKKS", "BGV"][self.scheme as usize & 3], self.n, self.q, self.t)
+    }
+}
+
+#[derive(Clone, Copy, PartialEq, Eq, Debug, Hash)]
+#[allow(clippy::enum_variant_names)]
+enum Rung {
+    Success,
+    InvalidScheme,
+    InvalidCoeffModulusSize,
+    InvalidCoeffModulusBitCount,
+    InvalidPolyModulusDegree,
+    InvalidPolyModulusDegreeNonPowerOfTwo,
+    InvalidParametersInsecure,
+    FailedCreatingRNSBase,
+    InvalidCoeffModulusNoNTT,
+    InvalidPlainModulusBitCount,
+    InvalidPlainModulusCoprimality,
+    InvalidPlainModulusTooLarge,
+    InvalidPlainModulusNonzero,
+}
+
+const RUNG_NAMES: [&str; 16] = [
+    "Success",
+    "InvalidScheme",
+    "InvalidCoeffModulusSize",
+    "InvalidCoeffModulusBitCount",
+    "InvalidPolyModulusDegree",
+    "InvalidPolyModulusDegreeNonPowerOfTwo",
+    "InvalidParametersInsecure",
+    "FailedCreatingRNSBase",
+    "InvalidCoeffModulusNoNTT",
+    "InvalidPlainModulusBitCount",
+    "InvalidPlainModulusCoprimality",
+    "InvalidPlainModulusTooLarge",
+    "InvalidPlainModulusNonzero",
+    "InvalidParametersTooLarge",
+    "FailedCreatingRNSTool",
+    "None",
+];
+
+struct RefVerdict {
+    /// first failing rung assuming every modulus that admits a root gets one
+    rung: Rung,
+    /// some composite coefficient modulus admits a root (or is undecided): the subject may also stop at NoNTT
+    gamble: bool,
+}
+
+/// The statement's preconditions, checked in the order of the documented ladder.
+fn ref_validate(p: &P, sec: u16) -> RefVerdict {
+    let v = |rung| RefVerdict { rung, gamble: false };
+    if p.scheme == 0 || p.scheme > 3 {
+        return v(Rung::InvalidScheme);
+    }
+    if p.q.is_empty() || p.q.len() > 64 {
+        return v(Rung::InvalidCoeffModulusSize);
+    }
+    if p.q.iter().any(|&x| bits(x) < 2 || bits(x) > 60) {
+        return v(Rung::InvalidCoeffModulusBitCount);
+    }
+    if p.n < 2 || p.n > 131072 {
+        return v(Rung::InvalidPolyModulusDegree);
+    }
+    if !p.n.is_power_of_two() {
+        return v(Rung::InvalidPolyModulusDegreeNonPowerOfTwo);
+    }
+    let total = BigU::product(&p.q);
+    if sec != 0 && total.bits() > std_max_bits(p.n, sec) {
+        return v(Rung::InvalidParametersInsecure);
+    }
+    for i in 0..p.q.len() {
+        for j in 0..i {
+            if gcd(p.q[i], p.q[j]) != 1 {
+                return v(Rung::FailedCreatingRNSBase);
+            }
+        }
+    }
+    let mut gamble = false;
+    for &x in &p.q {
+        match ref_has_root(p.n, x) {
+            Some(false) => return v(Rung::InvalidCoeffModulusNoNTT),
+            Some(true) => {
+                if !isp(x) {
+                    gamble = true;
+                }
+            }
+            None => gamble = true,
+        }
+    }
+    let v = |rung| RefVerdict { rung, gamble };
+    if p.scheme == 2 {
+        if p.t != 0 {
+            return v(Rung::InvalidPlainModulusNonzero);
+        }
+    } else {
+        if bits(p.t) < 2 || bits(p.t) > 60 {
+            return v(Rung::InvalidPlainModulusBitCount);
+        }
+        if p.q.iter().any(|&x| gcd(x, p.t) != 1) {
+            return v(Rung::InvalidPlainModulusCoprimality);
+        }
+        if BigU::from_u64(p.t) >= total {
+            return v(Rung::InvalidPlainModulusTooLarge);
+        }
+    }
+    v(Rung::Success)
+}
+
+/// can the object be constructed through the builder at all (model of the documented refusals)?
+fn ref_constructible(p: &P) -> bool {
+    let ok = |v: u64| v != 1 && v >> 61 == 0;
+    if !p.q.iter().all(|&v| ok(v)) || !ok(p.t) || p.q.len() > 64 {
+        return false;
+    }
+    match p.scheme {
+        0 => p.n == 0 && p.q.is_empty() && p.t == 0,
+        2 => p.t == 0,
+        _ => true,
+    }
+}
+
+/// The object through the public builder; `order` varies the order of the setter calls. Err = refusal (panic text).
+fn build_parms(p: &P, special: bool, order: u8) -> Result<EncryptionParameters, String> {
+    let mut mods = Vec::with_capacity(p.q.len());
+    for &v in &p.q {
+        mods.push(modulus(v)?);
+    }
+    let t = modulus(p.t)?;
+    let scheme = p.scheme;
+    let n = p.n;
+    guard(move || {
+        let e = EncryptionParameters::new(SchemeType::from(scheme));
+        let set_q = |e: EncryptionParameters| if mods.is_empty() { e } else { e.set_coeff_modulus(&mods) };
+        let e = match order {
+            0 => set_q(e.set_poly_modulus_degree(n)).set_plain_modulus(&t),
+            1 => set_q(e.set_plain_modulus(&t)).set_poly_modulus_degree(n),
+            _ => set_q(e).set_poly_modulus_degree(n).set_plain_modulus(&t),
+        };
+        if special {
+            e.set_use_special_prime_for_encryption(true)
+        } else {
+            e
+        }
+    })
+}
+
+type Viol = (String, String, String);
+
+fn viol(key: impl Into<String>, exp: impl Into<String>, obs: impl Into<String>) -> Viol {
+    (key.into(), exp.into(), obs.into())
+}
+
+// ---------------------------------------------------------------------------------------------
+// observing a context
+// ---------------------------------------------------------------------------------------------
+
+struct LevelObs {
+    id: ParmsID,
+    q: Vec<u64>,
+    /// fingerprint of every observable constant of the level
+    fp: u64,
+    /// roots of the coefficient NTT tables
+    roots: Vec<u64>,
+    qual: u8,
+}
+
+struct CtxObs {
+    set: bool,
+    err: String,
+    levels: Vec<LevelObs>,
+    first_idx: usize,
+}
+
+fn op_ok(op: &hu::MultiplyU64ModOperand, q: u64) -> bool {
+    op.operand < q && op.quotient == (((op.operand as u128) << 64) / q as u128) as u64
+}
+
+/// Constants of one accepted level against their definitions. Returns (fingerprint, roots, qualifier bits).
+fn check_level(lp: &P, sec: u16, cd: &ContextData) -> Result<(u64, Vec<u64>, u8), Viol> {
+    let sch = ["None", "BFV", "CKKS", "BGV"][lp.scheme as usize & 3];
+    let k = lp.q.len();
+    let n = lp.n;
+    let ctx = || format!("{} level q={:?}", lp.label(), lp.q);
+    macro_rules! want {
+        ($name:expr, $obs:expr, $exp:expr) => {{
+            let (o, e) = (&$obs, &$exp);
+            if o != e {
+                return Err(viol(format!("const:{}:{}:wrong", sch, $name), format!("{} = {:?} for {}", $name, e, ctx()), format!("{:?}", o)));
+            }
+        }};
+    }
+    let total = BigU::product(&lp.q);
+    want!("total_coeff_modulus", cd.total_coeff_modulus().clone(), total.limbs(k));
+    want!("total_coeff_modulus_bit_count", cd.total_coeff_modulus_bit_count(), total.bits());
+    let qual = cd.qualifiers();
+    // coefficient NTT tables
+    let tabs = cd.small_ntt_tables();
+    want!("small_ntt_tables.len", tabs.len(), k);
+    let mut roots = vec![];
+    let mut invs = vec![];
+    for (i, tb) in tabs.iter().enumerate() {
+        let qi = lp.q[i];
+        want!("ntt.coeff_count", tb.coeff_count(), n);
+        want!("ntt.coeff_count_power", 1usize << tb.coeff_count_power(), n);
+        let r = tb.root();
+        if r == 0 || r >= qi || pow_mod(r, n as u64, qi) != qi - 1 {
+            return Err(viol(format!("const:{sch}:ntt.root:not-a-root"), format!("root^N = -1 mod {qi} for {}", ctx()), format!("root {r}")));
+        }
+        if isp(qi) {
+            want!("ntt.root(minimal)", Some(r), ref_min_root(n, qi));
+        }
+        let inv = tb.inv_degree_modulo();
+        if !op_ok(&inv, qi) || mul_mod(inv.operand, n as u64 % qi, qi) != 1 {
+            return Err(viol(format!("const:{sch}:ntt.inv_degree:wrong"), format!("N^-1 mod {qi} for {}", ctx()), format!("{:?}", (inv.operand, inv.quotient))));
+        }
+        roots.push(r);
+        invs.push(inv.operand);
+    }
+    // qualifiers
+    let descending = lp.q.windows(2).all(|w| w[0] > w[1]);
+    want!("qualifiers.using_fft", qual.using_fft, true);
+    want!("qualifiers.using_ntt", qual.using_ntt, true);
+    want!("qualifiers.using_descending_modulus_chain", qual.using_descending_modulus_chain, descending);
+    want!("qualifiers.sec_level", qual.sec_level, sec_level(sec));
+    let mut plain_root = 0u64;
+    let cdpm: Vec<(u64, u64)> = cd.coeff_div_plain_modulus().iter().map(|o| (o.operand, o.quotient)).collect();
+    if lp.scheme == 2 {
+        want!("qualifiers.using_batching", qual.using_batching, true);
+        want!("qualifiers.using_fast_plain_lift", qual.using_fast_plain_lift, false);
+        want!("plain_upper_half_threshold", cd.plain_upper_half_threshold(), 1u64 << 63);
+        let inc: Vec<u64> = lp.q.iter().map(|&qi| ((qi as u128 - ((1u128 << 64) % qi as u128)) % qi as u128) as u64).collect();
+        want!("plain_upper_half_increment", cd.plain_upper_half_increment().clone(), inc);
+        want!("upper_half_threshold", cd.upper_half_threshold().clone(), total.add(&BigU::one()).shr(1).limbs(k));
+    } else {
+        let t = lp.t;
+        let fast = lp.q.iter().all(|&qi| qi > t);
+        want!("qualifiers.using_fast_plain_lift", qual.using_fast_plain_lift, fast);
+        let (quo, rem) = total.divrem(&BigU::from_u64(t));
+        want!("coeff_div_plain_modulus.len", cdpm.len(), k);
+        for i in 0..k {
+            let e = quo.rem_u64(lp.q[i]);
+            let eq = (((e as u128) << 64) / lp.q[i] as u128) as u64;
+            want!("coeff_div_plain_modulus", cdpm[i], (e, eq));
+        }
+        want!("coeff_modulus_mod_plain_modulus", cd.coeff_modulus_mod_plain_modulus(), rem.to_u64().unwrap());
+        want!("plain_upper_half_threshold", cd.plain_upper_half_threshold(), (t + 1) >> 1);
+        let inc: Vec<u64> = if fast { lp.q.iter().map(|&qi| qi - t).collect() } else { total.sub(&BigU::from_u64(t)).limbs(k) };
+        want!("plain_upper_half_increment", cd.plain_upper_half_increment().clone(), inc);
+        // batching
+        let t_prime = isp(t);
+        match ref_has_root(n, t) {
+            Some(false) => want!("qualifiers.using_batching", qual.using_batching, false),
+            Some(true) if t_prime => want!("qualifiers.using_batching", qual.using_batching, true),
+            _ => {} // composite plain modulus with a root: depends on the draws, not judged
+        }
+        if qual.using_batching {
+            let tb = cd.plain_ntt_tables();
+            want!("plain_ntt.coeff_count", tb.coeff_count(), n);
+            let r = tb.root();
+            if r == 0 || r >= t || pow_mod(r, n as u64, t) != t - 1 {
+                return Err(viol(format!("const:{sch}:plain_ntt.root:not-a-root"), format!("root^N = -1 mod {t} for {}", ctx()), format!("root {r}")));
+            }
+            if t_prime {
+                want!("plain_ntt.root(minimal)", Some(r), ref_min_root(n, t));
+            }
+            let inv = tb.inv_degree_modulo();
+            if !op_ok(&inv, t) || mul_mod(inv.operand, n as u64 % t, t) != 1 {
+                return Err(viol(format!("const:{sch}:plain_ntt.inv_degree:wrong"), format!("N^-1 mod {t}"), format!("{:?}", (inv.operand, inv.quotient))));
+            }
+            plain_root = r;
+        }
+    }
+    let qb = (qual.using_fft as u8) | (qual.using_ntt as u8) << 1 | (qual.using_batching as u8) << 2 | (qual.using_fast_plain_lift as u8) << 3 | (qual.using_descending_modulus_chain as u8) << 4;
+    let fp = h64(&(
+        cd.parms_id(),
+        cd.chain_index(),
+        qb,
+        qual.sec_level as u32,
+        cd.total_coeff_modulus(),
+        cd.total_coeff_modulus_bit_count(),
+        (&roots, &invs, plain_root),
+        &cdpm,
+        cd.coeff_modulus_mod_plain_modulus(),
+        cd.plain_upper_half_threshold(),
+        cd.plain_upper_half_increment(),
+        cd.upper_half_threshold(),
+    ));
+    Ok((fp, roots, qb))
+}
+
+/// Walks the chain from the key level and checks its structure (valid for every input, accepted or not).
+fn observe_ctx(p: &P, sec: u16, special: bool, ctx: &HeContext) -> Result<CtxObs, Viol> {
+    let s = |x: &str| x.to_string();
+    let key = ctx.key_context_data().ok_or_else(|| viol("chain:no-key-level", "key_context_data() is Some", "None"))?;
+    let first = ctx.first_context_data().ok_or_else(|| viol("chain:no-first-level", "first_context_data() is Some", "None"))?;
+    let last = ctx.last_context_data().ok_or_else(|| viol("chain:no-last-level", "last_context_data() is Some", "None"))?;
+    let set = ctx.parameters_set();
+    let err = format!("{:?}", first.qualifiers().parameter_error);
+    want_eq("chain:parameters_set-vs-error", set, err == "Success", p)?;
+    if key.prev_context_data().is_some() {
+        return Err(viol("chain:key-has-prev", "key level has no predecessor", p.label()));
+    }
+    // walk
+    let mut cds = vec![key.clone()];
+    while let Some(nx) = cds.last().unwrap().next_context_data() {
+        if cds.len() > 70 {
+            return Err(viol("chain:cycle", "a finite chain", p.label()));
+        }
+        cds.push(nx);
+    }
+    let count = cds.len();
+    let mut levels = vec![];
+    let mut first_idx = usize::MAX;
+    for (i, cd) in cds.iter().enumerate() {
+        let exp_q: Vec<u64> = p.q[..p.q.len().saturating_sub(i)].to_vec();
+        let lq: Vec<u64> = cd.parms().coeff_modulus().iter().map(|m| m.value()).collect();
+        if lq != exp_q || cd.parms().poly_modulus_degree() != p.n || cd.parms().plain_modulus().value() != p.t || u8::from(cd.parms().scheme()) != p.scheme {
+            return Err(viol(
+                "chain:level-not-prefix",
+                format!("level {i} of {} = the first {} moduli, same scheme/degree/plain modulus", p.label(), exp_q.len()),
+                format!("q={lq:?} N={} t={}", cd.parms().poly_modulus_degree(), cd.parms().plain_modulus().value()),
+            ));
+        }
+        want_eq("chain:index", cd.chain_index(), count - 1 - i, p)?;
+        let lp = P { scheme: p.scheme, n: p.n, q: lq.clone(), t: p.t };
+        let indep = build_parms(&lp, false, 2).map_err(|e| viol("ids:level-not-constructible", format!("level parameters {} constructible", lp.label()), e))?;
+        if cd.parms_id() != indep.parms_id() || cd.parms().parms_id() != cd.parms_id() {
+            return Err(viol("ids:level-id-differs", format!("id of independently built {} = {:x?}", lp.label(), indep.parms_id()), format!("{:x?}", cd.parms_id())));
+        }
+        match ctx.get_context_data(cd.parms_id()) {
+            Some(g) if Arc::ptr_eq(&g, cd) => {}
+            _ => return Err(viol("chain:map-lookup", format!("get_context_data(id of level {i}) is that level"), p.label())),
+        }
+        if i > 0 {
+            match cd.prev_context_data() {
+                Some(pv) if Arc::ptr_eq(&pv, &cds[i - 1]) => {}
+                _ => return Err(viol("chain:prev-link", format!("prev of level {i} is level {}", i - 1), p.label())),
+            }
+        }
+        if Arc::ptr_eq(cd, &first) {
+            first_idx = i;
+        }
+        let lset = cd.qualifiers().parameters_set();
+        if set != lset {
+            return Err(viol("chain:level-set-flag", format!("every level of the chain has parameters_set() == {set}"), format!("level {i} of {}: {lset}", p.label())));
+        }
+        let (fp, roots, qual) = if lset {
+            // set => the statement's preconditions hold at this level (judged for ALL inputs)
+            let rv = ref_validate(&lp, sec);
+            if rv.rung != Rung::Success {
+                return Err(viol(
+                    format!("sound:accepted-but:{:?}", rv.rung),
+                    format!("parameters_set() only if every level satisfies the preconditions; level {i} {} sec={sec} fails {:?}", lp.label(), rv.rung),
+                    s("parameters_set() = true"),
+                ));
+            }
+            check_level(&lp, sec, cd)?
+        } else {
+            (h64(&(cd.parms_id(), &err)), vec![], 0)
+        };
+        levels.push(LevelObs { id: *cd.parms_id(), q: lq, fp, roots, qual });
+    }
+    if first_idx == usize::MAX || first_idx > 1 {
+        return Err(viol("chain:first-level", "first level is the key level or its successor", format!("index {first_idx} for {}", p.label())));
+    }
+    if !Arc::ptr_eq(&last, cds.last().unwrap()) {
+        return Err(viol("chain:last-level", "last_context_data() is the end of the list", p.label()));
+    }
+    want_eq("chain:key-id", *ctx.key_parms_id(), levels[0].id, p)?;
+    want_eq("chain:first-id", *ctx.first_parms_id(), levels[first_idx].id, p)?;
+    want_eq("chain:last-id", *ctx.last_parms_id(), levels[count - 1].id, p)?;
+    want_eq("chain:using_keyswitching", ctx.using_keyswitching(), first_idx == 1, p)?;
+    want_eq("chain:security_level", ctx.security_level(), sec_level(sec), p)?;
+    if special && first_idx != 0 {
+        return Err(viol("chain:special-prime-flag", "with use_special_prime_for_encryption the first data level is the key level", p.label()));
+    }
+    if !set && count != 1 {
+        return Err(viol("chain:rejected-has-chain", "a rejected parameter set has the key level only", format!("{count} levels for {}", p.label())));
+    }
+    Ok(CtxObs { set, err, levels, first_idx })
+}
+
+fn want_eq<T: PartialEq + std::fmt::Debug>(key: &str, obs: T, exp: T, p: &P) -> Result<(), Viol> {
+    if obs != exp {
+        return Err(viol(format!("{key}:wrong"), format!("{exp:?} for {}", p.label()), format!("{obs:?}")));
+    }
+    Ok(())
+}
+
+/// expected chain (list lengths per level, index of the first data level) when every modulus is prime
+fn ref_chain(p: &P, sec: u16, expand: bool, special: bool) -> (Vec<usize>, usize) {
+    let k = p.q.len();
+    let ok = |len: usize| ref_validate(&P { scheme: p.scheme, n: p.n, q: p.q[..len].to_vec(), t: p.t }, sec).rung == Rung::Success;
+    let mut lens = vec![k];
+    let mut first_idx = 0;
+    if ok(k) {
+        if k > 1 && !special && ok(k - 1) {
+            lens.push(k - 1);
+            first_idx = 1;
+        }
+        if expand {
+            let mut cur = *lens.last().unwrap();
+            while cur > 1 && ok(cur - 1) {
+                cur -= 1;
+                lens.push(cur);
+            }
+        }
+    }
+    (lens, first_idx)
+}
+
+// ---------------------------------------------------------------------------------------------
+// statistics reported as observations
+// ---------------------------------------------------------------------------------------------
+
+#[derive(Default)]
+struct Stats {
+    items: AtomicU64,
+    refusals: AtomicU64,
+    builds: AtomicU64,
+    accepted: AtomicU64,
+    levels: AtomicU64,
+    by_rung: [AtomicU64; 16],
+    gamble_items: AtomicU64,
+    gamble_accepted: AtomicU64,
+    gamble_nontt: AtomicU64,
+    gamble_ab_differ: AtomicU64,
+    batching_gamble: AtomicU64,
+    exhausted: AtomicU64,
+    max_draws: AtomicU64,
+}
+
+impl Stats {
+    fn note(&self, rep: &Report, section: &str) {
+        let g = |a: &AtomicU64| a.load(Ordering::Relaxed);
+        let rungs: Vec<String> = RUNG_NAMES.iter().enumerate().filter(|(i, _)| g(&self.by_rung[*i]) > 0).map(|(i, n)| format!("{n}={}", g(&self.by_rung[i]))).collect();
+        rep.observe(format!(
+            "{section}: inner items={} builder refusals={} HeContext::new calls={} accepted={} levels compared={} reported errors: {} (counts include the engine's determinism self-test re-runs)",
+            g(&self.items), g(&self.refusals), g(&self.builds), g(&self.accepted), g(&self.levels), rungs.join(" ")
+        ));
+        rep.observe(format!(
+            "{section}: composite coefficient moduli admitting a 2N-th root: items={} accepted={} stopped at NoNTT={} two builds with different draws disagreed (acceptance, chain length or roots)={} — not judged (scope decision); scripted draws exhausted in {} builds; most draws used by one build={}",
+            g(&self.gamble_items), g(&self.gamble_accepted), g(&self.gamble_nontt), g(&self.gamble_ab_differ), g(&self.exhausted), g(&self.max_draws)
+        ));
+    }
+}
+
+fn rung_index(name: &str) -> usize {
+    RUNG_NAMES.iter().position(|n| *n == name).unwrap_or(15)
+}
+
+/// scripted draws for the builds of one case
+struct Scripts {
+    seed: u64,
+    tag: u64,
+    ctr: u64,
+    len: usize,
+    installed: bool,
+}
+
+impl Scripts {
+    fn new(seed: u64, tag: u64, len: usize) -> Self {
+        Scripts { seed, tag, ctr: 0, len, installed: false }
+    }
+    /// an untouched script is in place afterwards
+    fn fresh(&mut self) {
+        if self.installed && !CLOBBER.with(|c| c.get()) && nt_draw_log().is_empty() {
+            return;
+        }
+        CLOBBER.with(|c| c.set(false));
+        self.ctr += 1;
+        set_nt_draws(Some(stream(self.seed, self.tag, self.ctr, self.len)));
+        self.installed = true;
+    }
+    fn used(&self) -> usize {
+        nt_draw_log().len()
+    }
+}
+
+// ---------------------------------------------------------------------------------------------
+// validate sections
+// ---------------------------------------------------------------------------------------------
+
+#[derive(Serialize, Deserialize, Clone, Debug)]
+pub struct VCase {
+    pub scheme: u8,
+    pub n: usize,
+    pub q: Vec<u64>,
+    /// plain moduli looped over inside the case
+    pub ts: Vec<u64>,
+    /// security levels (0 = None) looped over inside the case
+    pub secs: Vec<u16>,
+    /// (expand_mod_chain, use_special_prime_for_encryption) looped over inside the case
+    pub flags: Vec<(bool, bool)>,
+    /// length of the draw script per build
+    #[serde(default)]
+    pub script: usize,
+}
+
+const ALL_FLAGS: [(bool, bool); 4] = [(false, false), (true, false), (false, true), (true, true)];
+
+struct ItemOut {
+    class: u64,
+    steps: u64,
+    accepted: bool,
+    constructible: bool,
+}
+
+fn eval_item(p: &P, sec: u16, expand: bool, special: bool, scripts: &mut Scripts, st: &Stats) -> Result<ItemOut, Viol> {
+    st.items.fetch_add(1, Ordering::Relaxed);
+    let item = || format!("{} sec={sec} expand={expand} special={special}", p.label());
+    // --- builder
+    let pa = build_parms(p, special, 0);
+    let pb = build_parms(p, special, 1);
+    let constructible = ref_constructible(p);
+    let (pa, pb) = match (pa, pb) {
+        (Ok(a), Ok(b)) => (a, b),
+        (Err(e), Err(_)) => {
+            if constructible {
+                return Err(viol(format!("builder:unexpected-refusal:{}", panic_class(&e)), format!("{} is constructible (documented refusals: scheme None with any field, Modulus 1 or > 61 bits, > 64 moduli, plain modulus on CKKS)", item()), e));
+            }
+            st.refusals.fetch_add(1, Ordering::Relaxed);
+            return Ok(ItemOut { class: h64(&("refusal", panic_class(&e))), steps: 0, accepted: false, constructible: false });
+        }
+        (a, b) => {
+            return Err(viol("builder:order-dependent", format!("the same refusal / object for every order of the setter calls, {}", item()), format!("degree-coeff-plain: {:?} / plain-coeff-degree: {:?}", a.err(), b.err())));
+        }
+    };
+    if !constructible {
+        return Err(viol("builder:accepted-undocumented", format!("builder refuses {}", item()), "object constructed"));
+    }
+    if pa.parms_id() != pb.parms_id() || pa.clone().parms_id() != pa.parms_id() {
+        return Err(viol("ids:equal-objects-differ", format!("equal parameter objects have equal ids, {}", item()), format!("{:x?} vs {:x?}", pa.parms_id(), pb.parms_id())));
+    }
+    if *pa.parms_id() == heathcliff::PARMS_ID_ZERO {
+        return Err(viol("ids:zero", "a non-zero id", item()));
+    }
+    // --- build A
+    let slevel = sec_level(sec);
+    scripts.fresh();
+    let ctx_a = guard(|| HeContext::new(pa.clone(), expand, slevel)).map_err(|e| viol(format!("validate:panic:{}", panic_class(&e)), format!("HeContext::new reports an error without panicking, {}", item()), e))?;
+    let used_a = scripts.used();
+    st.builds.fetch_add(1, Ordering::Relaxed);
+    st.max_draws.fetch_max(used_a as u64, Ordering::Relaxed);
+    if used_a > scripts.len {
+        st.exhausted.fetch_add(1, Ordering::Relaxed);
+    }
+    let oa = guard(|| observe_ctx(p, sec, special, &ctx_a)).map_err(|e| viol(format!("observe:panic:{}", panic_class(&e)), format!("accessors of the context do not panic, {}", item()), e))??;
+    drop(ctx_a); // large degrees: do not keep two chains alive
+    let mut steps = 1 + oa.levels.len() as u64;
+    st.by_rung[rung_index(&oa.err)].fetch_add(1, Ordering::Relaxed);
+    // --- reported error vs. the ladder
+    let rv = ref_validate(p, sec);
+    let exp_name = format!("{:?}", rv.rung);
+    if rv.gamble {
+        st.gamble_items.fetch_add(1, Ordering::Relaxed);
+        if oa.set {
+            st.gamble_accepted.fetch_add(1, Ordering::Relaxed);
+        } else if oa.err == "InvalidCoeffModulusNoNTT" {
+            st.gamble_nontt.fetch_add(1, Ordering::Relaxed);
+        }
+    }
+    if oa.err != exp_name && !(rv.gamble && oa.err == "InvalidCoeffModulusNoNTT") {
+        let key = if oa.set { format!("sound:accepted-but:{exp_name}") } else if rv.rung == Rung::Success { format!("ladder:rejected-valid:{}", oa.err) } else { format!("ladder:wrong-rung:{}-instead-of-{exp_name}", oa.err) };
+        return Err(viol(key, format!("{exp_name} (first failing rung) for {}", item()), oa.err.clone()));
+    }
+    if !oa.set && (oa.err == "Success" || oa.err == "None") {
+        return Err(viol("ladder:no-specific-error", format!("a specific error for rejected {}", item()), oa.err.clone()));
+    }
+    // --- chain
+    if oa.set {
+        st.accepted.fetch_add(1, Ordering::Relaxed);
+        st.levels.fetch_add(oa.levels.len() as u64, Ordering::Relaxed);
+        let (lens, first_idx) = ref_chain(p, sec, expand, special);
+        let obs_lens: Vec<usize> = oa.levels.iter().map(|l| l.q.len()).collect();
+        if !rv.gamble {
+            if obs_lens != lens || oa.first_idx != first_idx {
+                return Err(viol("chain:wrong-levels", format!("levels with {lens:?} moduli, first data level at position {first_idx}, for {}", item()), format!("{obs_lens:?}, first at {}", oa.first_idx)));
+            }
+        } else if obs_lens.len() > lens.len() || obs_lens[..] != lens[..obs_lens.len()] {
+            return Err(viol("chain:wrong-levels", format!("an initial part of {lens:?} for {}", item()), format!("{obs_lens:?}")));
+        }
+        if !expand && oa.levels.len() > 2 {
+            return Err(viol("chain:expanded-without-flag", "at most key + first level without expand_mod_chain", format!("{obs_lens:?}")));
+        }
+    }
+    // --- build B (independent object, other setter order, other draws) when A consumed any randomness
+    if used_a > 0 {
+        scripts.fresh();
+        let ctx_b = guard(|| HeContext::new(pb.clone(), expand, slevel)).map_err(|e| viol(format!("validate:panic:{}", panic_class(&e)), format!("HeContext::new reports an error without panicking, {}", item()), e))?;
+        st.builds.fetch_add(1, Ordering::Relaxed);
+        if scripts.used() > scripts.len {
+            st.exhausted.fetch_add(1, Ordering::Relaxed);
+        }
+        let ob = guard(|| observe_ctx(p, sec, special, &ctx_b)).map_err(|e| viol(format!("observe:panic:{}", panic_class(&e)), format!("accessors of the context do not panic, {}", item()), e))??;
+        steps += 1 + ob.levels.len() as u64;
+        let same = oa.set == ob.set && oa.err == ob.err && oa.first_idx == ob.first_idx && oa.levels.len() == ob.levels.len() && oa.levels.iter().zip(&ob.levels).all(|(a, b)| a.id == b.id && a.fp == b.fp);
+        if !same {
+            let composite_t = p.scheme != 2 && p.t > 3 && !is_prime_u64(p.t) && ref_has_root(p.n, p.t) != Some(false);
+            if rv.gamble || composite_t {
+                st.gamble_ab_differ.fetch_add(1, Ordering::Relaxed);
+            } else {
+                let d = |o: &CtxObs| format!("set={} err={} first={} levels={:?}", o.set, o.err, o.first_idx, o.levels.iter().map(|l| (l.q.len(), l.id[0], l.fp, l.roots.clone(), l.qual)).collect::<Vec<_>>());
+                return Err(viol("repro:independent-builds-differ", format!("two independently built contexts agree on acceptance, every level's id and constants, {}; first: {}", item(), d(&oa)), d(&ob)));
+            }
+        }
+    }
+    let class = h64(&(oa.err.as_str(), oa.levels.len(), oa.first_idx, oa.levels.first().map(|l| l.qual), rv.gamble));
+    Ok(ItemOut { class, steps, accepted: oa.set, constructible: true })
+}
+
+fn check_validate(c: &VCase, seed: u64, st: &Stats) -> CaseOut {
+    let tag = h64(&(c.scheme, c.n, &c.q, &c.ts, &c.secs, &c.flags));
+    let mut scripts = Scripts::new(seed, tag, if c.script == 0 { 4096 } else { c.script });
+    // moduli first (their constructor consumes draws of its own script)
+    for &v in c.q.iter().chain(c.ts.iter()) {
+        let _ = modulus(v);
+    }
+    let sname = ["None", "BFV", "CKKS", "BGV"][c.scheme as usize & 3];
+    let mut classes: Vec<u64> = vec![];
+    let (mut steps, mut accepted, mut constructible) = (0u64, 0u64, 0u64);
+    let mut out = None;
+    'outer: for &t in &c.ts {
+        let p = P { scheme: c.scheme, n: c.n, q: c.q.clone(), t };
+        for &sec in &c.secs {
+            for &(expand, special) in &c.flags {
+                match eval_item(&p, sec, expand, special, &mut scripts, st) {
+                    Ok(o) => {
+                        steps += o.steps;
+                        accepted += o.accepted as u64;
+                        constructible += o.constructible as u64;
+                        if !classes.contains(&o.class) {
+                            classes.push(o.class);
+                        }
+                    }
+                    Err((key, exp, obs)) => {
+                        out = Some(CaseOut::fail(format!("{sname}:{key}"), exp, obs));
+                        break 'outer;
+                    }
+                }
+            }
+        }
+    }
+    set_nt_draws(None);
+    if let Some(o) = out {
+        return o;
+    }
+    classes.sort_unstable();
+    if constructible == 0 {
+        return CaseOut { nontrivial: false, outcome: h64(&classes), steps: 0, verdict: Verdict::Skip("every inner item is refused by the builder".into()) };
+    }
+    CaseOut::pass(accepted > 0, h64(&classes), steps)
+}
+
+/// An E1 section followed by a note in the evidence's observations.
+struct Noted<C> {
+    inner: Box<E1<C>>,
+    note: Box<dyn Fn(&Report) + Send>,
+}
+
+impl<C: Serialize + serde::de::DeserializeOwned + Clone + Send + 'static> AnySection for Noted<C> {
+    fn name(&self) -> String {
+        self.inner.name()
+    }
+    fn replay(&self, case: &Value) -> Result<CaseOut, String> {
+        self.inner.replay(case)
+    }
+    fn run(self: Box<Self>, rep: &Arc<Report>) {
+        let Noted { inner, note } = *self;
+        (inner as Box<dyn AnySection>).run(rep);
+        note(rep);
+    }
+}
+
+// ---------------------------------------------------------------------------------------------
+// alphabets
+// ---------------------------------------------------------------------------------------------
+
+pub struct Alpha {
+    pub v: Vec<u64>,
+    pub vx: Vec<u64>,
+    pub t: Vec<u64>,
+    pub degrees: Vec<usize>,
+    pub max_len: usize,
+    /// alphabet of the longest lists (thorough: length 4)
+    pub v_long: Vec<u64>,
+    pub max_len_long: usize,
+}
+
+fn alpha(cfg: &RunCfg) -> Alpha {
+    let p60 = primes_1_mod(1 << 19, 60, 2);
+    let p61 = primes_1_mod(1 << 18, 61, 1);
+    let v = vec![2, 3, 4, 5, 13, 16, 17, 29, 41, 97, 113, 193, 257, 7681, 65537, p60[0], p61[0], 17 * 97];
+    let vx = vec![0, 1, 1u64 << 61];
+    let t = vec![0, 2, 3, 16, 17, 18, 34, 41, 49, 73, 257, p60[1], p61[0]];
+    let degrees = vec![0, 1, 2, 3, 4, 6, 8, 16, 1 << 17, 1 << 18];
+    let v_long = vec![3, 17, 41, 97, 257, 7681, p60[0], 17 * 97];
+    Alpha { v, vx, t, degrees, max_len: if cfg.thorough() { 3 } else { 2 }, v_long, max_len_long: if cfg.thorough() { 4 } else { 3 } }
+}
+
+/// all lists over `alpha` of exactly `len` entries (duplicates included), lexicographic by index
+fn lists_of(alpha: &[u64], len: usize) -> impl Iterator<Item = Vec<u64>> + Send + 'static {
+    let a = alpha.to_vec();
+    let total = (a.len() as u64).pow(len as u32);
+    (0..total).map(move |mut i| {
+        let mut l = vec![0u64; len];
+        for k in (0..len).rev() {
+            l[k] = a[(i % a.len() as u64) as usize];
+            i /= a.len() as u64;
+        }
+        l
+    })
+}
+
+/// the coefficient lists of the small universe, simplest first
+fn small_lists(al: &Alpha) -> impl Iterator<Item = Vec<u64>> + Send + 'static {
+    let v = al.v.clone();
+    let vx = al.vx.clone();
+    let mut ext: Vec<Vec<u64>> = vx.iter().map(|&x| vec![x]).collect();
+    let all: Vec<u64> = v.iter().chain(vx.iter()).cloned().collect();
+    for &x in &vx {
+        for &y in &all {
+            ext.push(vec![x, y]);
+            if !vx.contains(&y) {
+                ext.push(vec![y, x]);
+            }
+        }
+    }
+    let max_len = al.max_len;
+    let long: Vec<Vec<u64>> = if al.max_len_long > al.max_len { vec![al.v_long.clone()] } else { vec![] };
+    let (ll, v2) = (al.max_len_long, v.clone());
+    (0..=max_len)
+        .flat_map(move |len| lists_of(&v2, len))
+        .chain(ext)
+        .chain(long.into_iter().flat_map(move |a| lists_of(&a, ll)))
+}
+
+fn small_cases(al: &Alpha) -> impl Iterator<Item = VCase> + Send + 'static {
+    let (ts, degrees) = (al.t.clone(), al.degrees.clone());
+    let secs = vec![0u16, 128, 192, 256];
+    // scheme None: everything but the empty object is a refusal of the builder
+    let mut none_cases = vec![];
+    for &n in &[0usize, 2, 4] {
+        for q in [vec![], vec![17u64]] {
+            none_cases.push(VCase { scheme: 0, n, q, ts: vec![0, 2, 17], secs: vec![0, 128], flags: ALL_FLAGS.to_vec(), script: 0 });
+        }
+    }
+    let it = small_lists(al).flat_map(move |q| {
+        let (ts, degrees, secs) = (ts.clone(), degrees.clone(), secs.clone());
+        let mut out = vec![];
+        for &n in &degrees {
+            for scheme in [1u8, 3, 2] {
+                // CKKS: any non-zero plain modulus is the same refusal of the builder; two of them are enough
+                let ts: Vec<u64> = if scheme == 2 { ts.iter().cloned().filter(|&t| t == 0 || t == 2 || t == 17).collect() } else { ts.clone() };
+                let heavy = n >= 1024 && q.iter().all(|&x| x > 1 && (x - 1) % (2 * n as u64) == 0) && !q.is_empty();
+                if heavy {
+                    for &t in &ts {
+                        out.push(VCase { scheme, n, q: q.clone(), ts: vec![t], secs: secs.clone(), flags: ALL_FLAGS.to_vec(), script: 0 });
+                    }
+                } else {
+                    out.push(VCase { scheme, n, q: q.clone(), ts: ts.clone(), secs: secs.clone(), flags: ALL_FLAGS.to_vec(), script: 0 });
+                }
+            }
+        }
+        out
+    });
+    none_cases.into_iter().chain(it)
+}
+
+const STD_DEGREES: [usize; 6] = [1024, 2048, 4096, 8192, 16384, 32768];
+
+/// (degree the list was made for, level, variant, list)
+fn std_lists(cfg: &RunCfg) -> Vec<(usize, u16, &'static str, Vec<u64>)> {
+    let mut out = vec![];
+    let top = if cfg.thorough() { 32768 } else { 8192 };
+    for &n in STD_DEGREES.iter().filter(|&&n| n <= top) {
+        for sec in [128u16, 192, 256] {
+            let Ok(l) = guard(|| CoeffModulus::bfv_default(n, sec_level(sec))) else { continue };
+            let l: Vec<u64> = l.iter().map(|m| m.value()).collect();
+            out.push((n, sec, "default", l.clone()));
+            // one bit more than the standard allows: last modulus replaced by a prime one bit longer
+            let mut b = l.clone();
+            let last = *b.last().unwrap();
+            if bits(last) < 60 {
+                if let Some(&pr) = primes_1_mod(2 * n as u64, bits(last) + 1, 1).first() {
+                    *b.last_mut().unwrap() = pr;
+                    out.push((n, sec, "plus-one-bit", b));
+                }
+            }
+        }
+    }
+    out
+}
+
+fn std_cases(cfg: &RunCfg) -> Vec<VCase> {
+    let mut out = vec![];
+    for (n, _sec, _variant, l) in std_lists(cfg) {
+        for nn in [n, n / 2, 2 * n] {
+            for scheme in [1u8, 3, 2] {
+                let ts: Vec<u64> = if scheme == 2 { vec![0] } else { vec![0, 2, 65537] };
+                for &t in &ts {
+                    if nn >= 16384 {
+                        for sec in [0u16, 128, 192, 256] {
+                            for f in ALL_FLAGS {
+                                out.push(VCase { scheme, n: nn, q: l.clone(), ts: vec![t], secs: vec![sec], flags: vec![f], script: 1 << 15 });
+                            }
+                        }
+                    } else {
+                        out.push(VCase { scheme, n: nn, q: l.clone(), ts: vec![t], secs: vec![0, 128, 192, 256], flags: ALL_FLAGS.to_vec(), script: 1 << 14 });
+                    }
+                }
+            }
+        }
+    }
+    deal(out)
+}
+
+/// Spreads expensive cases over the engine's batches of 16 consecutive cases (round-robin deal of the cost-sorted list).
+fn deal(mut v: Vec<VCase>) -> Vec<VCase> {
+    let cost = |c: &VCase| (c.n as u128) * (c.q.len() as u128).pow(2) * (c.flags.iter().map(|f| 1 + f.0 as u128).sum::<u128>()) * (c.secs.contains(&0) as u128 + 1);
+    v.sort_by_key(|c| std::cmp::Reverse(cost(c)));
+    let batches = v.len().div_ceil(16).max(1);
+    let mut slots: Vec<Vec<VCase>> = (0..batches).map(|_| vec![]).collect();
+    for (i, c) in v.into_iter().enumerate() {
+        slots[i % batches].push(c);
+    }
+    slots.into_iter().flatten().collect()
+}
+
+fn long_cases(cfg: &RunCfg) -> Vec<VCase> {
+    // 65 smallest primes = 1 mod 4 (N = 2) and the 65 largest 60-bit primes = 1 mod 8 (N = 4)
+    let small: Vec<u64> = (5u64..).step_by(4).filter(|&x| is_prime_u64(x)).take(65).collect();
+    let big = primes_1_mod(8, 60, 65);
+    let mut out = vec![];
+    for (n, src) in [(2usize, &small), (4usize, &big)] {
+        for len in [63usize, 64, 65] {
+            for scheme in [1u8, 3, 2] {
+                let ts: Vec<u64> = if scheme == 2 { vec![0] } else { vec![3, 17, 257] };
+                for &t in &ts {
+                    let flags: Vec<(bool, bool)> = if cfg.thorough() || n == 2 { ALL_FLAGS.to_vec() } else { vec![(false, false), (true, true)] };
+                    if !cfg.thorough() && n == 4 && (scheme == 3 || (t != 3 && t != 0)) {
+                        continue; // quick: the 60-bit lists with BFV t=3 and CKKS only
+                    }
+                    for f in flags {
+                        out.push(VCase { scheme, n, q: src[..len].to_vec(), ts: vec![t], secs: vec![0, 128], flags: vec![f], script: 1 << 19 });
+                    }
+                }
+            }
+        }
+    }
+    deal(out)
+}
+
+// ---------------------------------------------------------------------------------------------
+// ids: pairwise distinct identifiers over the whole universe
+// ---------------------------------------------------------------------------------------------
+
+struct IdsSection {
+    cfg: RunCfg,
+}
+
+/// every (scheme, degree, list, plain modulus) that occurs in the validate sections, chain levels included
+fn id_universe(cfg: &RunCfg) -> Box<dyn Iterator<Item = (u8, usize, Vec<u64>, Vec<u64>)> + Send> {
+    let al = alpha(cfg);
+    let small = small_cases(&al).map(|c| (c.scheme, c.n, c.q, c.ts));
+    let mut rest = vec![];
+    for c in std_cases(cfg).into_iter().chain(long_cases(cfg)) {
+        if c.secs[0] != 0 || c.flags[0] != ALL_FLAGS[0] && c.flags.len() == 1 {
+            continue; // same tuples again
+        }
+        for len in 1..=c.q.len() {
+            rest.push((c.scheme, c.n, c.q[..len].to_vec(), c.ts.clone()));
+        }
+    }
+    Box::new(small.chain(rest))
+}
+
+fn id_of(p: &P) -> Option<ParmsID> {
+    build_parms(p, false, 0).ok().map(|e| *e.parms_id())
+}
+
+fn diff_class(a: &P, b: &P) -> String {
+    let mut d = vec![];
+    if a.scheme != b.scheme {
+        d.push("scheme");
+    }
+    if a.n != b.n {
+        d.push("degree");
+    }
+    if a.q != b.q {
+        d.push(if a.q.len() != b.q.len() { "coeff-count" } else { "coeff" });
+    }
+    if a.t != b.t {
+        d.push("plain");
+    }
+    d.join("+")
+}
+
+impl AnySection for IdsSection {
+    fn name(&self) -> String {
+        "ids".into()
+    }
+
+    fn replay(&self, case: &Value) -> Result<CaseOut, String> {
+        let a: P = serde_json::from_value(case["a"].clone()).map_err(|e| e.to_string())?;
+        let b: P = serde_json::from_value(case["b"].clone()).map_err(|e| e.to_string())?;
+        heathcliff_thread_init();
+        let (ia, ib) = (id_of(&a), id_of(&b));
+        Ok(match (ia, ib) {
+            (Some(x), Some(y)) if a != b && x == y => CaseOut::fail(format!("ids:collision:differ-in-{}", diff_class(&a, &b)), format!("different ids for {} and {}", a.label(), b.label()), format!("both {:x?}", x)),
+            (Some(_), Some(_)) => CaseOut::pass(true, 1, 2),
+            _ => CaseOut::skip("not constructible"),
+        })
+    }
+
+    fn run(self: Box<Self>, rep: &Arc<Report>) {
+        let t0 = Instant::now();
+        let it = std::sync::Mutex::new(id_universe(&self.cfg));
+        let threads = self.cfg.threads.max(1);
+        let refused = AtomicU64::new(0);
+        let mut all: Vec<([u64; 4], u64)> = vec![];
+        std::thread::scope(|s| {
+            let hs: Vec<_> = (0..threads)
+                .map(|_| {
+                    s.spawn(|| {
+                        heathcliff_thread_init();
+                        let mut local: Vec<([u64; 4], u64)> = vec![];
+                        loop {
+                            let batch: Vec<_> = {
+                                let mut g = it.lock().unwrap();
+                                (0..256).filter_map(|_| g.next()).collect()
+                            };
+                            if batch.is_empty() {
+                                break;
+                            }
+                            for (scheme, n, q, ts) in batch {
+                                for t in ts {
+                                    let p = P { scheme, n, q: q.clone(), t };
+                                    match id_of(&p) {
+                                        Some(id) => local.push((id, h64(&p))),
+                                        None => {
+                                            refused.fetch_add(1, Ordering::Relaxed);
+                                        }
+                                    }
+                                }
+                            }
+                        }
+                        local
+                    })
+                })
+                .collect();
+            for h in hs {
+                match h.join() {
+                    Ok(l) => all.extend(l),
+                    Err(_) => rep.machinery_error("ids: worker panicked"),
+                }
+            }
+        });
+        let computed = all.len() as u64;
+        all.sort_unstable();
+        all.dedup();
+        let distinct_tuples = all.len() as u64;
+        // adjacent scan
+        let mut colliding: Vec<u64> = vec![];
+        for w in all.windows(2) {
+            if w[0].0 == w[1].0 {
+                colliding.push(w[0].1);
+                colliding.push(w[1].1);
+            }
+        }
+        let zero = all.iter().filter(|e| e.0 == [0u64; 4]).count();
+        let mut nviol = 0u64;
+        if !colliding.is_empty() {
+            // second pass: recover the tuples behind the colliding hashes
+            colliding.sort_unstable();
+            colliding.dedup();
+            let mut found: HashMap<[u64; 4], Vec<P>> = HashMap::new();
+            for (scheme, n, q, ts) in id_universe(&self.cfg) {
+                for t in ts {
+                    let p = P { scheme, n, q: q.clone(), t };
+                    if colliding.binary_search(&h64(&p)).is_ok() {
+                        if let Some(id) = id_of(&p) {
+                            let e = found.entry(id).or_default();
+                            if !e.contains(&p) {
+                                e.push(p);
+                            }
+                        }
+                    }
+                }
+            }
+            let mut groups: Vec<_> = found.into_iter().filter(|(_, v)| v.len() > 1).collect();
+            groups.sort_by_key(|(id, _)| *id);
+            for (id, v) in groups {
+                for b in &v[1..] {
+                    nviol += 1;
+                    rep.add_violation(
+                        "ids",
+                        json!({"a": v[0], "b": b}),
+                        Fail { key: format!("ids:collision:differ-in-{}", diff_class(&v[0], b)), expected: format!("different ids for {} and {}", v[0].label(), b.label()), observed: format!("both {:x?}", id) },
+                    );
+                }
+            }
+        }
+        if zero > 0 {
+            rep.add_violation("ids", json!({"zero": true}), Fail { key: "ids:zero".into(), expected: "no zero identifier".into(), observed: format!("{zero} tuples") });
+        }
+        let out = CaseOut::pass(true, h64(&(distinct_tuples, nviol)), computed);
+        rep.record("ids", h64(&"ids-universe"), || json!({"universe": "all tuples of validate_small / validate_std / validate_long incl. chain levels"}), &out);
+        rep.observe(format!("ids: {computed} identifiers computed through the builder ({} refusals skipped), {distinct_tuples} distinct (id, tuple) pairs, {nviol} colliding pairs", refused.load(Ordering::Relaxed)));
+        rep.push_section(SectionStat {
+            name: "ids".into(),
+            engine: "E1(sort+scan)".into(),
+            cases: distinct_tuples,
+            nontrivial: distinct_tuples,
+            skipped: refused.load(Ordering::Relaxed),
+            outcomes: distinct_tuples - nviol.min(distinct_tuples),
+            steps: computed,
+            states: distinct_tuples,
+            transitions: computed,
+            exhaustive: true,
+            bound: "every (scheme, degree, coefficient list, plain modulus) of the validate sections incl. all chain levels: ids pairwise distinct".into(),
+            wall_s: t0.elapsed().as_secs_f64(),
+            extra: json!({"refused_by_builder": refused.load(Ordering::Relaxed)}),
+        });
+        rep.states.fetch_add(distinct_tuples, Ordering::Relaxed);
+        rep.transitions.fetch_add(computed, Ordering::Relaxed);
+    }
+}
+
+// ---------------------------------------------------------------------------------------------
+// create / defaults
+// ---------------------------------------------------------------------------------------------
+
+#[derive(Serialize, Deserialize, Clone, Debug)]
+pub struct CCase {
+    pub n: usize,
+    /// non-decreasing
+    pub sizes: Vec<usize>,
+    /// how often the identical call is repeated (fresh HashMap states, different draws)
+    pub repeat: u8,
+}
+
+/// the `m` largest primes of exactly `b` bits that are 1 mod 2n (fewer if there are not that many)
+fn avail(n: usize, b: usize, m: usize) -> Vec<u64> {
+    if let Some(v) = AVAIL.with(|a| a.borrow().get(&(n, b, m)).cloned()) {
+        return v;
+    }
+    let v = if b < 2 || b > 62 || n == 0 { vec![] } else { primes_1_mod(2 * n as u64, b, m) };
+    AVAIL.with(|a| a.borrow_mut().insert((n, b, m), v.clone()));
+    v
+}
+
+fn judge_created(n: usize, sizes: &[usize], r: &Result<Vec<Modulus>, String>, satisfiable: bool) -> Result<u64, Viol> {
+    let call = || format!("CoeffModulus::create({n}, {sizes:?})");
+    match r {
+        Err(e) => {
+            if satisfiable {
+                return Err(viol(format!("create:refused-satisfiable:{}", panic_class(e)), format!("{} returns primes (enough primes of every size exist)", call()), e.clone()));
+            }
+            Ok(h64(&("refused", panic_class(e))))
+        }
+        Ok(v) => {
+            let vals: Vec<u64> = v.iter().map(|m| m.value()).collect();
+            if vals.len() != sizes.len() {
+                return Err(viol("create:wrong-count", format!("{} moduli from {}", sizes.len(), call()), format!("{vals:?}")));
+            }
+            for (i, &x) in vals.iter().enumerate() {
+                let ok = bits(x) == sizes[i] && n > 0 && x % (2 * n as u64) == 1 && is_prime_u64(x) && v[i].is_prime();
+                if !ok {
+                    let what = if bits(x) != sizes[i] { "bit-size" } else if !is_prime_u64(x) { "composite" } else if !v[i].is_prime() { "prime-flag" } else { "not-1-mod-2N" };
+                    return Err(viol(format!("create:{what}"), format!("{}: entry {i} is a prime of exactly {} bits, = 1 mod {}", call(), sizes[i], 2 * n), format!("{vals:?}")));
+                }
+                if vals[..i].contains(&x) {
+                    return Err(viol("create:duplicate", format!("{}: distinct primes", call()), format!("{vals:?}")));
+                }
+            }
+            Ok(h64(&("ok", vals.len())))
+        }
+    }
+}
+
+fn check_create(c: &CCase, seed: u64) -> CaseOut {
+    let tag = h64(&(c.n, &c.sizes));
+    let valid_args = c.n >= 2 && c.n <= 131072 && c.n.is_power_of_two() && !c.sizes.is_empty() && c.sizes.len() <= 64 && c.sizes.iter().all(|&b| (2..=60).contains(&b));
+    let mut satisfiable = valid_args;
+    if valid_args {
+        let mut i = 0;
+        while i < c.sizes.len() {
+            let b = c.sizes[i];
+            let m = c.sizes.iter().filter(|&&x| x == b).count();
+            if avail(c.n, b, m).len() < m {
+                satisfiable = false;
+            }
+            i += m;
+        }
+    }
+    let call = |sizes: Vec<usize>, ctr: u64| {
+        set_nt_draws(Some(stream(seed, tag, ctr, 2048)));
+        let n = c.n;
+        let r = guard(move || CoeffModulus::create(n, sizes));
+        set_nt_draws(None);
+        r
+    };
+    let mut steps = 0u64;
+    let first = call(c.sizes.clone(), 0);
+    steps += 1;
+    // invalid arguments: the disjunction "refusal or primes as requested" is all that is judged
+    let class = match judge_created(c.n, &c.sizes, &first, satisfiable) {
+        Ok(h) => h,
+        Err((k, e, o)) => return CaseOut::fail(k, e, o),
+    };
+    let vals = |r: &Result<Vec<Modulus>, String>| r.as_ref().ok().map(|v| v.iter().map(|m| m.value()).collect::<Vec<_>>());
+    for rep in 1..c.repeat.max(1) {
+        let again = call(c.sizes.clone(), rep as u64);
+        steps += 1;
+        if vals(&again) != vals(&first) {
+            return CaseOut::fail("create:nondeterministic", format!("identical calls CoeffModulus::create({}, {:?}) agree: {:?}", c.n, c.sizes, vals(&first)), format!("{:?}", vals(&again)));
+        }
+    }
+    let distinct_sizes = c.sizes.windows(2).any(|w| w[0] != w[1]);
+    if distinct_sizes {
+        let rev: Vec<usize> = c.sizes.iter().rev().cloned().collect();
+        let r = call(rev.clone(), 100);
+        steps += 1;
+        if let Err((k, e, o)) = judge_created(c.n, &rev, &r, satisfiable) {
+            return CaseOut::fail(k, e, o);
+        }
+    }
+    if c.sizes.len() == 1 {
+        let (n, b) = (c.n, c.sizes[0]);
+        set_nt_draws(Some(stream(seed, tag, 200, 2048)));
+        let r = guard(move || PlainModulus::batching(n, b)).map(|m| vec![m]);
+        set_nt_draws(None);
+        steps += 1;
+        if let Err((k, e, o)) = judge_created(c.n, &c.sizes, &r, satisfiable) {
+            return CaseOut::fail(k.replace("create:", "batching:"), e, o);
+        }
+    }
+    CaseOut::pass(first.is_ok(), class, steps)
+}
+
+fn multisets(alpha: &[usize], len: usize) -> Vec<Vec<usize>> {
+    fn rec(alpha: &[usize], len: usize, start: usize, cur: &mut Vec<usize>, out: &mut Vec<Vec<usize>>) {
+        if cur.len() == len {
+            out.push(cur.clone());
+            return;
+        }
+        for i in start..alpha.len() {
+            cur.push(alpha[i]);
+            rec(alpha, len, i, cur, out);
+            cur.pop();
+        }
+    }
+    let mut out = vec![];
+    rec(alpha, len, 0, &mut vec![], &mut out);
+    out
+}
+
+fn create_cases(cfg: &RunCfg) -> impl Iterator<Item = CCase> + Send + 'static {
+    let full: Vec<usize> = (2..=60).collect();
+    let reduced: Vec<usize> = vec![2, 3, 4, 5, 8, 13, 17, 18, 19, 20, 30, 31, 32, 59, 60];
+    let mut sets: Vec<Vec<usize>> = vec![];
+    sets.extend(multisets(&full, 1));
+    sets.extend(multisets(&full, 2));
+    if cfg.thorough() {
+        sets.extend(multisets(&full, 3));
+        sets.extend(multisets(&full, 4));
+    } else {
+        sets.extend(multisets(&reduced, 3));
+        sets.extend(multisets(&reduced, 4));
+    }
+    let mut out = vec![];
+    // invalid arguments
+    for (n, sizes) in [(0usize, vec![20usize]), (1, vec![20]), (3, vec![20]), (6, vec![20]), (1 << 18, vec![30]), (8, vec![]), (8, vec![1]), (8, vec![61]), (8, vec![20, 61]), (8, vec![1, 20]), (8, vec![62]), (8, vec![64]), (2, vec![30; 65])] {
+        out.push(CCase { n, sizes, repeat: 1 });
+    }
+    for k in 1..=15 {
+        let n = 1usize << k;
+        out.push(CCase { n, sizes: vec![20, 30, 40, 50], repeat: 8 });
+        out.push(CCase { n, sizes: vec![25, 25, 35, 35, 45], repeat: 8 });
+    }
+    // the two largest supported degrees with a few lists
+    for n in [1usize << 16, 1 << 17] {
+        for s in multisets(&[2, 17, 18, 19, 20, 30, 59, 60], 2) {
+            out.push(CCase { n, sizes: s, repeat: 2 });
+        }
+    }
+    let sets = Arc::new(sets);
+    // shortest lists first, then by degree
+    let main = (0..sets.len()).flat_map(move |i| {
+        let sets = sets.clone();
+        (1..=15).map(move |k| CCase { n: 1usize << k, sizes: sets[i].clone(), repeat: if sets[i].len() >= 4 { 1 } else { 2 } })
+    });
+    out.into_iter().chain(main)
+}
+
+// ---------------------------------------------------------------------------------------------
+// create_with_plain_modulus (deprecated in the crate, still a generator of moduli)
+// ---------------------------------------------------------------------------------------------
+
+#[derive(Serialize, Deserialize, Clone, Debug)]
+pub struct PCase {
+    pub n: usize,
+    pub t: u64,
+    pub sizes: Vec<usize>,
+}
+
+#[allow(deprecated)]
+fn check_create_plain(c: &PCase, seed: u64, overflow_refusals: &AtomicU64) -> CaseOut {
+    let tm = match modulus(c.t) {
+        Ok(m) => m,
+        Err(_) => return CaseOut::skip("plain modulus refused by Modulus::new"),
+    };
+    let two_n = 2 * c.n as u128;
+    let lcm: u128 = two_n * (c.t as u128 / gcd(c.t, 2 * c.n as u64) as u128);
+    // enough primes of every size that are 1 mod lcm?
+    let mut satisfiable = true;
+    let mut i = 0;
+    while i < c.sizes.len() {
+        let b = c.sizes[i];
+        let m = c.sizes.iter().filter(|&&x| x == b).count();
+        let have = if lcm >> 61 != 0 { 0 } else { primes_1_mod(lcm as u64, b, m).len() };
+        if have < m {
+            satisfiable = false;
+        }
+        i += m;
+    }
+    set_nt_draws(Some(stream(seed, h64(&(c.n, c.t, &c.sizes)), 0, 2048)));
+    let (n, sizes) = (c.n, c.sizes.clone());
+    let r = guard(move || CoeffModulus::create_with_plain_modulus(n, &tm, sizes));
+    set_nt_draws(None);
+    let call = || format!("CoeffModulus::create_with_plain_modulus({}, {}, {:?})", c.n, c.t, c.sizes);
+    match r {
+        Err(e) => {
+            if e.contains("overflow") && !satisfiable {
+                // lcm(2N, t) does not fit 64 bits: this build (overflow checks on) refuses by an arithmetic panic. A refusal is
+                // within the statement; what a build without overflow checks does is reported as an observation (REPORT.md).
+                overflow_refusals.fetch_add(1, Ordering::Relaxed);
+                return CaseOut::pass(false, h64(&"refused-by-overflow"), 1);
+            }
+            if satisfiable {
+                return CaseOut::fail(format!("create_plain:refused-satisfiable:{}", panic_class(&e)), format!("{} returns primes = 1 mod {lcm}", call()), e);
+            }
+            CaseOut::pass(false, h64(&("refused", panic_class(&e))), 1)
+        }
+        Ok(v) => {
+            let vals: Vec<u64> = v.iter().map(|m| m.value()).collect();
+            for (i, &x) in vals.iter().enumerate() {
+                let what = if vals.len() != c.sizes.len() {
+                    "wrong-count"
+                } else if bits(x) != c.sizes[i] {
+                    "bit-size"
+                } else if !is_prime_u64(x) {
+                    "composite"
+                } else if x as u128 % lcm != 1 {
+                    "not-1-mod-lcm"
+                } else if vals[..i].contains(&x) {
+                    "duplicate"
+                } else {
+                    continue;
+                };
+                return CaseOut::fail(format!("create_plain:{what}"), format!("{}: distinct primes of exactly the requested sizes, = 1 mod lcm(2N, t) = {lcm}", call()), format!("{vals:?}"));
+            }
+            CaseOut::pass(true, h64(&("ok", vals.len())), 1)
+        }
+    }
+}
+
+fn create_plain_cases(cfg: &RunCfg) -> Vec<PCase> {
+    let ts: Vec<u64> = vec![2, 3, 4, 17, 255, 257, 65537, 786433, (1 << 20) + 7, (1u64 << 40) + 15, (1u64 << 48) + 1, primes_1_mod(2, 50, 1)[0], primes_1_mod(1 << 19, 60, 2)[1]];
+    let sizes: Vec<usize> = if cfg.thorough() { (2..=60).collect() } else { vec![2, 5, 8, 13, 17, 20, 22, 30, 31, 40, 50, 59, 60] };
+    let mut sets = multisets(&sizes, 1);
+    sets.extend(multisets(&sizes, 2));
+    let mut out = vec![];
+    for s in sets {
+        for k in 1..=15 {
+            for &t in &ts {
+                out.push(PCase { n: 1 << k, t, sizes: s.clone() });
+            }
+        }
+    }
+    out
+}
+
+#[derive(Serialize, Deserialize, Clone, Debug)]
+pub struct DCase {
+    pub n: usize,
+    pub sec: u16,
+}
+
+fn check_defaults(c: &DCase) -> CaseOut {
+    let (n, sec) = (c.n, c.sec);
+    let mb = match guard(|| CoeffModulus::max_bit_count(n, sec_level(sec))) {
+        Ok(v) => v,
+        Err(e) => return CaseOut::fail(format!("defaults:max_bit_count:panic:{}", panic_class(&e)), "a value", e),
+    };
+    let exp = std_max_bits(n, sec);
+    if (sec != 0 && mb != exp) || (sec == 0 && mb < 64 * 60) {
+        return CaseOut::fail("defaults:max_bit_count:wrong", format!("{exp} for N={n} level {sec} (HomomorphicEncryption.org table)"), format!("{mb}"));
+    }
+    set_nt_draws(Some(stream(1, h64(&(n, sec)), 0, 2048)));
+    let r = guard(|| CoeffModulus::bfv_default(n, sec_level(sec)));
+    set_nt_draws(None);
+    let standard = sec != 0 && exp > 0;
+    match r {
+        Err(e) => {
+            if standard {
+                return CaseOut::fail(format!("defaults:bfv_default:refused:{}", panic_class(&e)), format!("a list for N={n} level {sec}"), e);
+            }
+            CaseOut::pass(false, h64(&("refused", panic_class(&e))), 2)
+        }
+        Ok(l) => {
+            let vals: Vec<u64> = l.iter().map(|m| m.value()).collect();
+            let total = BigU::product(&vals);
+            let mut bad = None;
+            if !standard {
+                bad = Some("a refusal for a non-standard degree / level None".to_string());
+            } else if total.bits() > exp {
+                bad = Some(format!("total bit count <= {exp}"));
+            } else if vals.is_empty() {
+                bad = Some("a non-empty list".into());
+            }
+            for (i, &x) in vals.iter().enumerate() {
+                if !(is_prime_u64(x) && l[i].is_prime() && x % (2 * n as u64) == 1 && (2..=60).contains(&bits(x)) && !vals[..i].contains(&x)) {
+                    bad = Some(format!("entry {i} a distinct 2..60-bit prime = 1 mod {}", 2 * n));
+                }
+            }
+            if let Some(b) = bad {
+                return CaseOut::fail("defaults:bfv_default:wrong", format!("{b} for N={n} level {sec}"), format!("{vals:?} ({} bits)", total.bits()));
+            }
+            CaseOut::pass(true, h64(&("ok", vals.len(), total.bits() == exp)), 2)
+        }
+    }
+}
+
+// ---------------------------------------------------------------------------------------------
+// is_prime against a sieve
+// ---------------------------------------------------------------------------------------------
+
+#[derive(Serialize, Deserialize, Clone, Debug)]
+pub struct SCase {
+    pub start: u64,
+    pub len: u64,
+    /// explicit values (boundary windows, pseudoprimes) instead of a range
+    #[serde(default)]
+    pub values: Vec<u64>,
+}
+
+fn sieve_block(start: u64, len: u64) -> Vec<bool> {
+    let end = start + len;
+    let mut is = vec![true; len as usize];
+    for (i, f) in is.iter_mut().enumerate() {
+        if start + (i as u64) < 2 {
+            *f = false;
+        }
+    }
+    let mut p = 2u64;
+    while p * p < end {
+        // p itself need not be prime: crossing out multiples of composites is harmless
+        let mut m = ((start + p - 1) / p).max(2) * p;
+        while m < end {
+            is[(m - start) as usize] = false;
+            m += p;
+        }
+        p += 1;
+    }
+    is
+}
+
+fn check_is_prime(c: &SCase, seed: u64) -> CaseOut {
+    let mut steps = 0u64;
+    let mut primes = 0u64;
+    let mut one = |n: u64, expect: bool| -> Option<CaseOut> {
+        set_nt_draws(Some(stream(seed, n, 0, 40)));
+        let r = guard(|| {
+            let m = Modulus::new(n);
+            (m.is_prime(), hu::is_prime(&m), m.value(), m.bit_count())
+        });
+        set_nt_draws(None);
+        steps += 1;
+        match r {
+            Err(e) => {
+                if n == 1 || n >> 61 != 0 {
+                    return None; // documented refusal of Modulus::new
+                }
+                Some(CaseOut::fail(format!("is_prime:panic:{}", panic_class(&e)), format!("Modulus::new({n}) is constructible"), e))
+            }
+            Ok((flag, direct, val, bc)) => {
+                if n == 1 || n >> 61 != 0 {
+                    return Some(CaseOut::fail("is_prime:modulus-accepted-out-of-range", format!("Modulus::new({n}) refuses"), format!("value {val}")));
+                }
+                if flag != expect || direct != expect {
+                    let kind = if expect { "prime-rejected" } else { "composite-accepted" };
+                    return Some(CaseOut::fail(format!("is_prime:{kind}"), format!("is_prime({n}) = {expect}"), format!("Modulus::is_prime() = {flag}, util::is_prime = {direct}")));
+                }
+                if val != n || bc != bits(n) {
+                    return Some(CaseOut::fail("is_prime:modulus-fields", format!("value {n}, {} bits", bits(n)), format!("value {val}, {bc} bits")));
+                }
+                primes += expect as u64;
+                None
+            }
+        }
+    };
+    if c.values.is_empty() {
+        let sv = sieve_block(c.start, c.len);
+        for i in 0..c.len {
+            if let Some(f) = one(c.start + i, sv[i as usize]) {
+                return f;
+            }
+        }
+    } else {
+        for &n in &c.values {
+            if let Some(f) = one(n, is_prime_u64(n)) {
+                return f;
+            }
+        }
+    }
+    CaseOut::pass(primes > 0, h64(&(primes > 0, primes == steps)), steps)
+}
+
+fn is_prime_cases(cfg: &RunCfg) -> Vec<SCase> {
+    let bound: u64 = if cfg.thorough() { 1 << 24 } else { 1 << 20 };
+    let block = 1u64 << 13;
+    let mut out: Vec<SCase> = (0..bound / block).map(|i| SCase { start: i * block, len: block, values: vec![] }).collect();
+    // boundary windows around every power of two of the allowed range
+    for k in 20..=61u32 {
+        let c = 1u64 << k;
+        let values: Vec<u64> = (c - 64..c + 64).collect();
+        out.push(SCase { start: 0, len: 0, values });
+    }
+    // strong pseudoprimes to small bases, Carmichael numbers, squares of primes, products of twin-like primes
+    let mut special: Vec<u64> = vec![
+        2047, 3277, 4033, 4681, 8321, 1373653, 25326001, 3215031751, 2152302898747, 3474749660383, 341550071728321, 4759123141, 1122004669633, 561, 1105, 1729, 2465, 2821, 6601, 8911, 41041, 825265,
+        321197185, 5394826801, 232250619601, 9746347772161, 65537 * 65537, 65521 * 65537, 1000003 * 1000033, 2147483647 * 2147483629, 1152921504606846883, 1152921504606846975,
+    ];
+    let p30 = primes_1_mod(2, 30, 8);
+    for &a in &p30 {
+        for &b in &p30 {
+            special.push(a * b);
+        }
+    }
+    special.retain(|&x| x >> 61 == 0);
+    out.push(SCase { start: 0, len: 0, values: special });
+    out
+}
+
+// ---------------------------------------------------------------------------------------------
+// every draw for small moduli
+// ---------------------------------------------------------------------------------------------
+
+#[derive(Serialize, Deserialize, Clone, Debug)]
+pub struct NCase {
+    /// "root" or "prime"
+    pub kind: String,
+    pub q: u64,
+}
+
+#[derive(Default)]
+struct NtStats {
+    composite_pairs: AtomicU64,
+    composite_inconsistent: AtomicU64,
+    liar_accepts: AtomicU64,
+    liar_numbers: AtomicU64,
+    calls: AtomicU64,
+}
+
+/// strong probable prime test to base a (exact model of one Miller-Rabin round)
+fn spp(n: u64, a: u64) -> bool {
+    let mut d = n - 1;
+    let mut r = 0;
+    while d % 2 == 0 {
+        d /= 2;
+        r += 1;
+    }
+    let mut x = pow_mod(a, d, n);
+    if x == 1 || x == n - 1 {
+        return true;
+    }
+    for _ in 1..r {
+        x = mul_mod(x, x, n);
+        if x == n - 1 {
+            return true;
+        }
+    }
+    false
+}
+
+fn check_nt(c: &NCase, seed: u64, st: &NtStats) -> CaseOut {
+    let q = c.q;
+    let m = match modulus(q) {
+        Ok(m) => m,
+        Err(e) => return CaseOut::fail("nt:modulus-refused", format!("Modulus::new({q})"), e),
+    };
+    let mut steps = 0u64;
+    let prime = is_prime_u64(q);
+    if c.kind == "root" {
+        let mut classes = vec![];
+        let mut n = 1usize;
+        while (q - 1) % (2 * n as u64) == 0 {
+            let degree = 2 * n as u64;
+            let exp = if prime { ref_min_root(n, q) } else { None };
+            let mut results: Vec<Option<u64>> = vec![];
+            for d in 0..q {
+                let mut script = vec![d];
+                script.extend(stream(seed, h64(&(q, n)), d, 300));
+                set_nt_draws(Some(script));
+                let r = guard(|| {
+                    let mut root = 0u64;
+                    let ok = hu::try_minimal_primitive_root(degree, &m, &mut root);
+                    (ok, root)
+                });
+                steps += 1;
+                let r = match r {
+                    Ok(r) => r,
+                    Err(e) => {
+                        set_nt_draws(None);
+                        return CaseOut::fail(format!("nt:root:panic:{}", panic_class(&e)), format!("try_minimal_primitive_root({degree}, {q}) with first draw {d} returns"), e);
+                    }
+                };
+                if prime {
+                    if !r.0 || Some(r.1) != exp {
+                        set_nt_draws(None);
+                        return CaseOut::fail("nt:root:depends-on-draw", format!("minimal primitive {degree}-th root {:?} mod {q} for every draw (first draw {d})", exp), format!("{r:?}"));
+                    }
+                } else {
+                    if r.0 && (r.1 == 0 || r.1 >= q || pow_mod(r.1, n as u64, q) != q - 1) {
+                        set_nt_draws(None);
+                        return CaseOut::fail("nt:root:not-a-root", format!("a value with root^{n} = -1 mod {q} (first draw {d})"), format!("{r:?}"));
+                    }
+                    let v = if r.0 { Some(r.1) } else { None };
+                    if !results.contains(&v) {
+                        results.push(v);
+                    }
+                }
+            }
+            // the table constructor used by the context, boundary draws
+            if prime && n >= 2 {
+                for d in [0u64, 1, 2, q - 1, q, u64::MAX] {
+                    let mut script = vec![d];
+                    script.extend(stream(seed, h64(&(q, n, 1)), d, 300));
+                    set_nt_draws(Some(script));
+                    let lg = n.trailing_zeros() as usize;
+                    let r = guard(|| hu::NTTTables::new(lg, &m).map(|t| t.root()).map_err(|e| e.to_string()));
+                    steps += 1;
+                    if r != Ok(Ok(exp.unwrap())) {
+                        set_nt_draws(None);
+                        return CaseOut::fail("nt:table-root:depends-on-draw", format!("NTTTables::new({lg}, {q}).root() = {:?} (first draw {d})", exp), format!("{r:?}"));
+                    }
+                }
+            }
+            if !prime && n >= 2 {
+                st.composite_pairs.fetch_add(1, Ordering::Relaxed);
+                if results.len() > 1 {
+                    st.composite_inconsistent.fetch_add(1, Ordering::Relaxed);
+                }
+            }
+            classes.push((n, results.len()));
+            n *= 2;
+        }
+        set_nt_draws(None);
+        st.calls.fetch_add(steps, Ordering::Relaxed);
+        if steps == 0 {
+            return CaseOut::skip("no admissible degree");
+        }
+        return CaseOut::pass(prime, h64(&(prime, classes.len(), classes.iter().map(|c| c.1.min(3)).collect::<Vec<_>>())), steps);
+    }
+    // kind == "prime": every constant draw
+    let trial = [2u64, 3, 5, 7, 11, 13];
+    let small_factor = trial.iter().any(|&p| q % p == 0 && q != p);
+    let mut liar_accepts = 0u64;
+    let range = if q > 3 { q - 3 } else { 1 };
+    for d in 0..range {
+        set_nt_draws(Some(vec![d; 40]));
+        let r = guard(|| hu::is_prime(&m));
+        steps += 1;
+        let r = match r {
+            Ok(r) => r,
+            Err(e) => {
+                set_nt_draws(None);
+                return CaseOut::fail(format!("nt:is_prime:panic:{}", panic_class(&e)), format!("is_prime({q}) with every draw = {d} returns"), e);
+            }
+        };
+        if prime && !r {
+            set_nt_draws(None);
+            return CaseOut::fail("nt:is_prime:prime-rejected", format!("is_prime({q}) = true for every draw (all draws {d})"), "false");
+        }
+        if !prime && r {
+            let a = 3 + d % (q - 3).max(1);
+            let all_liars = !small_factor && q > 13 && spp(q, 2) && spp(q, a);
+            if !all_liars {
+                set_nt_draws(None);
+                return CaseOut::fail("nt:is_prime:composite-accepted-despite-witness", format!("is_prime({q}) = false when base 2 or base {a} is a witness (all draws {d})"), "true");
+            }
+            liar_accepts += 1;
+        }
+    }
+    set_nt_draws(None);
+    st.calls.fetch_add(steps, Ordering::Relaxed);
+    if liar_accepts > 0 {
+        st.liar_accepts.fetch_add(liar_accepts, Ordering::Relaxed);
+        st.liar_numbers.fetch_add(1, Ordering::Relaxed);
+    }
+    CaseOut::pass(prime || liar_accepts > 0, h64(&(prime, liar_accepts > 0)), steps)
+}
+
+// ---------------------------------------------------------------------------------------------
+// sections
+// ---------------------------------------------------------------------------------------------
+
+pub fn sections(cfg: &RunCfg) -> Vec<Box<dyn AnySection>> {
+    let seed = cfg.seed;
+    let al = alpha(cfg);
+    let mut v: Vec<Box<dyn AnySection>> = vec![];
+
+    let mut dcases = vec![];
+    for &n in al.degrees.iter().chain(STD_DEGREES.iter()).chain([512usize, 65536].iter()) {
+        for sec in [0u16, 128, 192, 256] {
+            dcases.push(DCase { n, sec });
+        }
+    }
+    v.push(E1::new("defaults", "max_bit_count / bfv_default for every degree of the alphabet + 512, 1024..65536 x every security level", dcases.into_iter(), check_defaults));
+
+    v.push(
+        E1::new(
+            "create",
+            if cfg.thorough() {
+                "CoeffModulus::create(N, sizes): N = 2..2^15 x every multiset of <= 4 sizes from {2..60}; calls with <= 3 sizes twice (different draws), reversed order, PlainModulus::batching; two lists repeated 8 times; invalid arguments; N = 2^16, 2^17 x pairs from {2,17,18,19,20,30,59,60}"
+            } else {
+                "CoeffModulus::create(N, sizes): N = 2..2^15 x every multiset of <= 2 sizes from {2..60} and of 3 or 4 sizes from {2,3,4,5,8,13,17,18,19,20,30,31,32,59,60}; calls with <= 3 sizes twice (different draws), reversed order, PlainModulus::batching; two lists repeated 8 times; invalid arguments; N = 2^16, 2^17 x pairs from {2,17,18,19,20,30,59,60}"
+            },
+            create_cases(cfg),
+            move |c: &CCase| check_create(c, seed),
+        )
+        .deadline(Duration::from_secs(60)),
+    );
+
+    let ovf = Arc::new(AtomicU64::new(0));
+    let (o1, o2) = (ovf.clone(), ovf.clone());
+    v.push(Box::new(Noted {
+        inner: E1::new(
+            "create_plain",
+            "CoeffModulus::create_with_plain_modulus(N, t, sizes): N = 2..2^15 x t in {2,3,4,17,255,257,65537,786433,2^20+7,2^40+15, 2^48+1, a 50-bit prime, a 60-bit prime} x every multiset of <= 2 sizes (quick: 13 sizes, thorough: 2..60)",
+            create_plain_cases(cfg).into_iter(),
+            move |c: &PCase| check_create_plain(c, seed, &o1),
+        ),
+        note: Box::new(move |rep| {
+            rep.observe(format!(
+                "create_plain: {} calls with lcm(2N, t) >= 2^64 were refused by 'attempt to multiply with overflow' (modulus.rs, factor *= ...): a refusal in this build profile; without overflow checks the factor wraps (e.g. N=32768, t=2^48+1 -> factor 65536) and the primes returned are = 1 mod 2N but not mod lcm(2N, t) — outside C13's clause (= 1 mod 2N), function is deprecated as buggy; not judged",
+                o2.load(Ordering::Relaxed)
+            ));
+        }),
+    }));
+
+    v.push(E1::new(
+        "is_prime",
+        if cfg.thorough() { "Modulus::new(n).is_prime() vs sieve for ALL n < 2^24; windows 2^k +- 64 for k = 20..61; pseudoprime list" } else { "Modulus::new(n).is_prime() vs sieve for ALL n < 2^20; windows 2^k +- 64 for k = 20..61; pseudoprime list" },
+        is_prime_cases(cfg).into_iter(),
+        move |c: &SCase| check_is_prime(c, seed),
+    ));
+
+    let nb: u64 = if cfg.thorough() { 1 << 13 } else { 1 << 11 };
+    let mut ncases = vec![];
+    for q in 3..nb {
+        if q % 2 == 1 {
+            ncases.push(NCase { kind: "root".into(), q });
+        }
+        ncases.push(NCase { kind: "prime".into(), q });
+    }
+    let nst = Arc::new(NtStats::default());
+    let (n1, n2) = (nst.clone(), nst.clone());
+    v.push(Box::new(Noted {
+        inner: E1::new(
+            "nt_draws",
+            &format!("every odd modulus q < {nb} x every power-of-two degree dividing q-1 x EVERY first draw 0..q of try_minimal_primitive_root; every n < {nb} x EVERY constant draw of is_prime"),
+            ncases.into_iter(),
+            move |c: &NCase| check_nt(c, seed, &n1),
+        ),
+        note: Box::new(move |rep| {
+            let g = |a: &AtomicU64| a.load(Ordering::Relaxed);
+            rep.observe(format!(
+                "nt_draws: {} subject calls; composite (modulus, degree >= 4) pairs = 1 mod degree: {}, of which the result (root / failure) depends on the first draw: {} — not judged; composites declared prime when base 2 and the scripted base are both strong liars: {} numbers, {} (number, draw) pairs — exact Miller-Rabin behaviour, not judged",
+                g(&n2.calls), g(&n2.composite_pairs), g(&n2.composite_inconsistent), g(&n2.liar_numbers), g(&n2.liar_accepts)
+            ));
+        }),
+    }));
+    let st = Arc::new(Stats::default());
+    let (s1, s2) = (st.clone(), st.clone());
+    v.push(Box::new(Noted {
+        inner: E1::new(
+            "validate_small",
+            &format!(
+                "scheme in {{None,BFV,BGV,CKKS}} x degree in {:?} x coefficient lists of length 0..{} over V={:?} (+ lists of length <= 2 containing 0, 1 or 2^61{}) x plain modulus in {:?} (CKKS: 0, 2, 17) x security in {{None,128,192,256}} x expand x special-prime",
+                al.degrees,
+                al.max_len,
+                al.v,
+                if al.max_len_long > al.max_len { format!(", + length {} over {:?}", al.max_len_long, al.v_long) } else { String::new() },
+                al.t
+            ),
+            small_cases(&al),
+            move |c: &VCase| check_validate(c, seed, &s1),
+        )
+        .deadline(Duration::from_secs(120)),
+        note: Box::new(move |rep| s2.note(rep, "validate_small")),
+    }));
+
+    let st = Arc::new(Stats::default());
+    let (s1, s2) = (st.clone(), st.clone());
+    v.push(Box::new(Noted {
+        inner: E1::new(
+            "validate_std",
+            &format!("bfv_default(N, level) for N in 1024..{} x level, as is and with the last prime one bit longer, used at degree N/2, N, 2N x scheme x plain modulus in {{0,2,65537}} x security x expand x special-prime", if cfg.thorough() { 32768 } else { 8192 }),
+            std_cases(cfg).into_iter(),
+            move |c: &VCase| check_validate(c, seed, &s1),
+        )
+        .deadline(Duration::from_secs(180)),
+        note: Box::new(move |rep| s2.note(rep, "validate_std")),
+    }));
+
+    let st = Arc::new(Stats::default());
+    let (s1, s2) = (st.clone(), st.clone());
+    v.push(Box::new(Noted {
+        inner: E1::new(
+            "validate_long",
+            if cfg.thorough() {
+                "63 / 64 / 65 distinct primes (smallest primes = 1 mod 4 at N=2; largest 60-bit primes = 1 mod 8 at N=4) x scheme x plain modulus in {3,17,257} x security in {None,128} x expand x special-prime"
+            } else {
+                "63 / 64 / 65 distinct primes: smallest primes = 1 mod 4 at N=2 x scheme x plain modulus in {3,17,257} x expand x special-prime; largest 60-bit primes = 1 mod 8 at N=4 x {BFV t=3, CKKS} x {(no expand, no special), (expand, special)}; security in {None,128}"
+            },
+            long_cases(cfg).into_iter(),
+            move |c: &VCase| check_validate(c, seed, &s1),
+        )
+        .deadline(Duration::from_secs(180)),
+        note: Box::new(move |rep| s2.note(rep, "validate_long")),
+    }));
+
+    v.push(Box::new(IdsSection { cfg: cfg.clone() }));
+
+    v
 }
